@@ -46,6 +46,10 @@ def main():
     if "--jobs" in sys.argv: jobs = int(sys.argv[sys.argv.index("--jobs") + 1]); args = [a for a in args if a != str(jobs)]
     dirs = sorted(glob.glob(os.path.join(here, "seeded", "*")))
     if args: dirs = [d for d in dirs if os.path.basename(d) in args]
+    cache = tempfile.mkdtemp(prefix="kxcache.")
+    ENV["GOCACHE"] = cache
+    import atexit
+    atexit.register(lambda: shutil.rmtree(cache, ignore_errors=True))
     with concurrent.futures.ThreadPoolExecutor(max_workers=jobs) as ex:
         for sid, verdicts, extra in ex.map(run, dirs):
             mp = os.path.join(here, "seeded", sid, "meta.json")
